@@ -64,7 +64,7 @@ def handle : List Sexp → String
         let status := match o with
           | .fin => "ok"
           | .blocked => "hang"
-          | .failed e => "(err " ++ toString e.code ++ ")"
+          | .failed e _ => "(err " ++ toString e.code ++ ")"
           | .panic => "panic"
           | .yielded _ => "yielded"
           | .nofuel => "nofuel"
